@@ -3,19 +3,247 @@
 // Contracts for the deductive verifier in /verif (comment-only file, compiled
 // only under the "verif" build tag; it adds no code).
 //
-// Syntax: see /verif/DESIGN.md §3.1.3.
+// Syntax: see /verif/DESIGN.md §3.1.3. One clause per "//@" line; a line
+// starting with "//@ |" continues the previous one.
 package vm
 
-//@ func vm.loadParamBytes
+// ---------------------------------------------------------------------------
+// Package-level constants (their immutability is the shared-constant frame
+// obligation of C16/C17: every write through them is an obligation "false").
+//@ global vm.zero u256 0
+//@ global vm.one u256 1
+//@ global vm.two u256 2
+//@ global vm.eight u256 8
+//@ global vm.oneSlot u256 32
+//@ global vm.storageMask u256 255
+//@ global vm.ErrOutOfGas sentinel out_of_gas
+//@ global vm.ErrCodeStoreOutOfGas sentinel
+//@ global vm.ErrDepth sentinel
+//@ global vm.ErrInsufficientBalance sentinel
+//@ global vm.ErrContractAddressCollision sentinel
+//@ global vm.ErrExecutionReverted sentinel
+//@ global vm.ErrMaxCodeSizeExceeded sentinel
+//@ global vm.ErrWriteProtection sentinel
+//@ global vm.ErrInvalidCode sentinel
+//@ global vm.ErrNonceUintOverflow sentinel
+//@ global vm.errStopToken sentinel
+
+// ---------------------------------------------------------------------------
+// Type invariants of vm/tracer.go: assumed whenever the field / map value is
+// read, checked at every store and for every allocated object when the
+// allocating function returns; the writer audit checks that every function
+// of the module that writes them is verified.
+
+//@ typeinv field vm.StorageKey.children nonnil
+//@ typeinv field vm.StorageKey.childrenIndex nonnil
+//@ typeinv field vm.StorageChanges.changes nonnil
+//@ typeinv field vm.StateChanges.roots nonnil
+//@ typeinv field vm.StateChanges.index nonnil
+//@ typeinv field vm.StateChanges.raw nonnil
+//@ typeinv field vm.CallTree.lookup nonnil
+//@ typeinv field vm.Tracer.states nonnil
+//@ typeinv field vm.Tracer.callTree nonnil
+//@ typeinv mapval vm.StateChanges.roots nonnil
+//@ typeinv mapval vm.StateChanges.index nonnil
+//@ typeinv mapval vm.StateChanges.index.elem nonnil
+//@ typeinv mapval vm.StateChanges.index.elem.elem nonnil
+//@ typeinv mapval vm.StateChanges.raw nonnil
+//@ typeinv mapval vm.StateChanges.raw.elem nonnil
+//@ typeinv mapval vm.StorageKey.childrenIndex : v != nil && v.slot != nil
+//@ typeinv mapval vm.StorageKey.children nonnil
+//@ typeinv mapval vm.StorageKey.children.elem : v != nil && v.slot != nil
+//@ typeinv mapval vm.StateChanges.index.elem.elem.elem : v != nil && v.slot != nil
+//@ typeinv fieldstore vm.StorageKey.slot nonnil
+//@ typeinv cellval *vm.Call nonnil
+
+// ---------------------------------------------------------------------------
+// vm/tracer.go
+
+//@ func (*vm.StorageChanges).append
 //@   verify
-//@   safety [C03 C14]
-//@   requires idx [C14]: index == 0 || index == 1
-//@   let head = math(index) * 32
-//@   let offw = word(input, index * 32)
-//@   let okhead = math(len(input)) >= head + 32
-//@   let okoff = okhead && math(offw) + 32 <= math(len(input))
-//@   let dlen = word(input, uint64(offw))
-//@   let ok = okoff && math(offw) + 32 + math(dlen) <= math(len(input))
-//@   ensures decode-ok [C14]: ok ==> result1 == nil && obj(result0) == obj(input) && math(off(result0)) == math(off(input)) + math(offw) + 32 && math(len(result0)) == math(dlen)
-//@   ensures decode-reject [C14]: !ok ==> result1 != nil
+//@   safety [C03]
+//@   requires recv [C03]: c != nil
+//@   modifies cell:[]byte, map:map[uint64][][]byte
+//@ end
+
+//@ func (*vm.StorageKey).JournalChanges
+//@   verify
+//@   safety [C03]
+//@   requires recv [C03]: k != nil
+//@   modifies cell:[]byte, map:map[uint64][][]byte, vm.StorageKey.changes, vm.StorageKey.nodeType
+//@ end
+
+//@ func (*vm.StorageKey).AddChild
+//@   verify
+//@   safety [C03]
+//@   requires recv [C03]: k != nil && child != nil && child.slot != nil
+//@   ensures result [C03]: result1 == nil && result0 != nil && result0.slot != nil && (result0 == child || result0 == old(k.children[*child.slot][child.offset]))
+//@   modifies map:map[string]*vm.StorageKey, map:map[uint256.Int]map[uint8]*vm.StorageKey, map:map[uint8]*vm.StorageKey
+//@ end
+
+//@ func (*vm.StorageKey).Children
+//@   verify
+//@   safety [C03]
+//@   requires recv [C03]: k != nil
+//@ end
+
+//@ func (*vm.StorageKey).ChildrenIndices
+//@   verify
+//@   safety [C03]
+//@   requires recv [C03]: k != nil
+//@ end
+
+//@ func (*vm.StateChanges).saveBalance
+//@   verify
+//@   safety [C03]
+//@   requires recv [C03]: s != nil && newBalance != nil
+//@   modifies cell:[]byte, map:map[uint64][][]byte, vm.StorageKey.changes, vm.StorageKey.nodeType, map:map[common.Address]*vm.StorageKey, cell:uint8
+//@ end
+
+//@ func (*vm.StateChanges).saveRawStateChange
+//@   verify
+//@   safety [C03]
+//@   requires recv [C03]: s != nil
+//@   modifies map:map[common.Address]map[uint256.Int]map[uint64]common.Hash, map:map[uint256.Int]map[uint64]common.Hash, map:map[uint64]common.Hash
+//@ end
+
+//@ func (*vm.StateChanges).findKey
+//@   verify
+//@   safety [C03]
+//@   requires recv [C03]: s != nil && slot != nil
+//@   ensures view [C03 C11]: result == s.index[account][*slot][offset][typeId]
+//@ end
+
+//@ func (*vm.StateChanges).addKey
+//@   verify
+//@   safety [C03]
+//@   requires recv [C03]: s != nil && slot != nil && key != nil && key.slot != nil
+//@   modifies map:map[common.Address]map[uint256.Int]map[uint8]map[common.Hash]*vm.StorageKey, map:map[uint256.Int]map[uint8]map[common.Hash]*vm.StorageKey, map:map[uint8]map[common.Hash]*vm.StorageKey, map:map[common.Hash]*vm.StorageKey
+//@ end
+
+//@ func (*vm.StateChanges).saveKey
+//@   verify
+//@   safety [C03]
+//@   requires recv [C03]: s != nil && self != nil
+//@   modifies map:map[common.Address]map[uint256.Int]map[uint8]map[common.Hash]*vm.StorageKey, map:map[uint256.Int]map[uint8]map[common.Hash]*vm.StorageKey, map:map[uint8]map[common.Hash]*vm.StorageKey, map:map[common.Hash]*vm.StorageKey, map:map[string]*vm.StorageKey, map:map[uint256.Int]map[uint8]*vm.StorageKey, map:map[uint8]*vm.StorageKey, map:map[common.Address]*vm.StorageKey
+//@ end
+
+//@ func (*vm.StateChanges).saveChange
+//@   verify
+//@   safety [C03]
+//@   requires recv [C03]: s != nil && self != nil
+//@   modifies cell:[]byte, map:map[uint64][][]byte, vm.StorageKey.changes, vm.StorageKey.nodeType
+//@ end
+
+//@ func (*vm.StateChanges).Balance
+//@   verify
+//@   safety [C03]
+//@   requires recv [C03]: s != nil
+//@ end
+
+//@ func (*vm.StateChanges).FindKeyIndices
+//@   verify
+//@   safety [C03]
+//@   requires recv [C03]: s != nil
+//@   loop 0 invariant cursor-nonnil [C03]: cursor != nil
+//@ end
+
+//@ func (*vm.StateChanges).Variable
+//@   verify
+//@   safety [C03]
+//@   requires recv [C03]: s != nil
+//@ end
+
+//@ func (*vm.StateChanges).Slot
+//@   verify
+//@   safety [C03]
+//@   requires recv [C03]: s != nil
+//@ end
+
+//@ func (*vm.StateChanges).IndicesOfChanges
+//@   verify
+//@   safety [C03]
+//@   requires recv [C03]: s != nil
+//@ end
+
+//@ func (*vm.Call).ChildrenIndices
+//@   verify
+//@   safety [C03]
+//@   requires recv [C03]: c != nil
+//@ end
+
+//@ func (*vm.Call).ParentIndex
+//@   verify
+//@   safety [C03]
+//@   requires recv [C03]: c != nil
+//@ end
+
+//@ func (*vm.CallTree).add
+//@   verify
+//@   safety [C03]
+//@   requires recv [C03]: c != nil
+//@   modifies vm.CallTree.root, vm.CallTree.current, vm.CallTree.count, map:map[uint64]*vm.Call, vm.Call.Children, cell:*vm.Call
+//@ end
+
+//@ func (*vm.CallTree).exit
+//@   verify
+//@   safety [C03]
+//@   requires recv [C03]: c != nil
+//@   modifies vm.CallTree.current, vm.Call.RemainingGas, vm.Call.Ret, vm.Call.Err
+//@ end
+
+//@ func (*vm.CallTree).ParentOf
+//@   verify
+//@   safety [C03]
+//@   requires recv [C03]: c != nil
+//@ end
+
+//@ func (*vm.CallTree).FindCall
+//@   verify
+//@   safety [C03]
+//@   requires recv [C03]: c != nil
+//@ end
+
+//@ func (*vm.CallTree).ChildrenOf
+//@   verify
+//@   safety [C03]
+//@   requires recv [C03]: c != nil
+//@ end
+
+//@ func (*vm.Tracer).CurrentCallIndex
+//@   verify
+//@   safety [C03]
+//@   requires recv [C03]: t != nil
+//@ end
+
+//@ func vm.NewTracer
+//@   verify
+//@   safety [C03]
+//@ end
+
+//@ func vm.NewStateChanges
+//@   verify
+//@   safety [C03]
+//@ end
+
+//@ func vm.NewCallTree
+//@   verify
+//@   safety [C03]
+//@ end
+
+//@ func vm.NewRootKey
+//@   verify
+//@   safety [C03]
+//@ end
+
+//@ func vm.NewBranchKey
+//@   verify
+//@   safety [C03]
+//@   requires slot [C03]: slot != nil
+//@   ensures fresh [C03]: result != nil && result.slot == slot && result.offset == offset && result.typeId == typeId
+//@ end
+
+//@ func vm.newStorageChange
+//@   verify
+//@   safety [C03]
 //@ end
